@@ -82,6 +82,24 @@ func cmdCheck(args []string) int {
 	only := fs.String("only", "", "restrict to functions with this key prefix (debugging)")
 	replayPath := fs.String("replay", "", "re-run a recorded replay file")
 	noEvidence := fs.Bool("no-evidence", false, "do not write the evidence file (selftest)")
+	// flags may come before or after the property id ("./check C06 --tier thorough")
+	{
+		var flags, pos []string
+		for i := 0; i < len(args); i++ {
+			a := args[i]
+			if strings.HasPrefix(a, "-") {
+				flags = append(flags, a)
+				name := strings.TrimLeft(a, "-")
+				if !strings.Contains(a, "=") && name != "no-evidence" && i+1 < len(args) {
+					i++
+					flags = append(flags, args[i])
+				}
+			} else {
+				pos = append(pos, a)
+			}
+		}
+		args = append(flags, pos...)
+	}
 	fs.Parse(args)
 	if fs.NArg() < 1 {
 		fmt.Fprintln(os.Stderr, "usage: govc check <PROP> [--tier quick|thorough]")
